@@ -674,4 +674,7 @@ def run(ctx):
     # the stream is attempted in every dump: its writer is on every success path of generate_dump (same rule instance as C01/every-stream-attempted)
     from rules import c01 as _c01
     _c01.rule_stream_attempted(ctx, R="C18/stream-attempted", only=("systeminfo_stream::write", "memory_info_list_stream::write", "MinidumpWriter::write_file", "dso_debug::write_dso_debug_stream", "handle_data_stream::write"))
+    # shared infrastructure this property leans on (rules/families.py): each member is the same rule instance as in its home property
+    from rules import families as _fam
+    _fam.reader(ctx, "C18")
 
